@@ -210,6 +210,33 @@ func (lc *lenChecker) minLen(x ssa.Value, at *ssa.BasicBlock, depth int) int64 {
 		}
 	}
 	switch v := x.(type) {
+	case *ssa.Parameter:
+		// every caller in the module passes a slice of at least this length
+		fn := v.Parent()
+		pi := -1
+		for i, p := range fn.Params {
+			if p == v {
+				pi = i
+			}
+		}
+		refs := refsTo(lc.ctx, fn)
+		if pi >= 0 && len(refs) > 0 && fn.Object() != nil && !fn.Object().Exported() {
+			least := int64(-2)
+			for _, ref := range refs {
+				call, isCall := ref.ins.(*ssa.Call)
+				if !isCall || call.Call.StaticCallee() != fn || pi >= len(call.Call.Args) {
+					least = -1
+					break
+				}
+				m := lc.minLen(call.Call.Args[pi], call.Block(), depth+1)
+				if least == -2 || m < least {
+					least = m
+				}
+			}
+			if least >= 0 {
+				up(least)
+			}
+		}
 	case *ssa.Slice:
 		if v.High == nil {
 			lo := int64(0)
@@ -269,6 +296,111 @@ func flipTok(op token.Token) token.Token {
 // inductionOver: idx is a loop index bounded by len(x): either the canonical
 // range form (phi[-1]+1 < len(x)) or phi[0..] with a dominating phi < len(x);
 // returns the stride (1 for ranges) and the offset of idx above the phi.
+// boundedInduction: idx is the index variable of a counted loop that dominates `at`:
+// 0 <= idx < N on every iteration. N is returned as an SSA value (bound) and, when it is a
+// compile-time constant (a literal, or the length of an array ranged over), as n >= 0.
+func boundedInduction(idx ssa.Value, at *ssa.BasicBlock) (bound ssa.Value, n int64, ok bool) {
+	v := idx
+	var viaAdd *ssa.BinOp
+	if bo, isB := v.(*ssa.BinOp); isB && bo.Op == token.ADD {
+		if c, isC := constInt(bo.Y); isC && c == 1 {
+			viaAdd = bo
+			v = bo.X
+		}
+	}
+	p, isPhi := v.(*ssa.Phi)
+	if !isPhi || len(p.Edges) != 2 {
+		return nil, -1, false
+	}
+	var init, step ssa.Value
+	for i, e := range p.Edges {
+		if isBackEdge(p.Block().Preds[i], p.Block()) {
+			step = e
+		} else {
+			init = e
+		}
+	}
+	i0, okI := constInt(init)
+	sb, okS := step.(*ssa.BinOp)
+	if !okI || !okS || sb.Op != token.ADD || sb.X != ssa.Value(p) {
+		return nil, -1, false
+	}
+	if k, okK := constInt(sb.Y); !okK || k != 1 {
+		return nil, -1, false
+	}
+	hdr := p.Block()
+	iff, okIf := hdr.Instrs[len(hdr.Instrs)-1].(*ssa.If)
+	if !okIf || !hdr.Succs[0].Dominates(at) {
+		return nil, -1, false
+	}
+	cmp, okC := iff.Cond.(*ssa.BinOp)
+	if !okC || cmp.Op != token.LSS {
+		return nil, -1, false
+	}
+	switch {
+	case i0 == -1 && viaAdd != nil && cmp.X == ssa.Value(sb) && (viaAdd == sb || (viaAdd.X == sb.X && viaAdd.Op == sb.Op)):
+		// range form: the index is phi+1, tested before the body
+	case i0 == 0 && viaAdd == nil && cmp.X == ssa.Value(p):
+		// counted form
+	default:
+		return nil, -1, false
+	}
+	n = -1
+	if c, isC := constInt(cmp.Y); isC {
+		n = c
+	}
+	return cmp.Y, n, true
+}
+
+// nonNegative: v is a counter that starts at a non-negative constant and only grows by
+// non-negative constants (through phis), or a non-negative constant, or a length.
+func nonNegative(v ssa.Value, depth int, seen map[ssa.Value]bool) bool {
+	if depth > 8 {
+		return false
+	}
+	if seen[v] {
+		return true // a cycle through phis/increments adds nothing negative
+	}
+	seen[v] = true
+	switch x := v.(type) {
+	case *ssa.Const:
+		c, ok := constInt(x)
+		return ok && c >= 0
+	case *ssa.Phi:
+		for _, e := range x.Edges {
+			if !nonNegative(e, depth+1, seen) {
+				return false
+			}
+		}
+		return true
+	case *ssa.BinOp:
+		if x.Op == token.ADD {
+			return nonNegative(x.X, depth+1, seen) && nonNegative(x.Y, depth+1, seen)
+		}
+	case *ssa.Call:
+		if _, isLen := lenCallOf(x); isLen {
+			return true
+		}
+	}
+	return false
+}
+
+// indexUpperBound: a constant hi with 0 <= idx <= hi established structurally, or ok=false.
+func indexUpperBound(idx ssa.Value, at *ssa.BasicBlock) (hi int64, ok bool) {
+	if c, isC := constInt(idx); isC && c >= 0 {
+		return c, true
+	}
+	if _, n, okB := boundedInduction(idx, at); okB && n > 0 {
+		return n - 1, true
+	}
+	if bo, isB := idx.(*ssa.BinOp); isB && bo.Op == token.REM {
+		if k, isC := constInt(bo.Y); isC && k > 0 && nonNegative(bo.X, 0, map[ssa.Value]bool{}) {
+			return k - 1, true
+		}
+	}
+	return 0, false
+}
+
 func inductionOver(idx ssa.Value, x ssa.Value, at *ssa.BasicBlock) (stride int64, off int64, phi *ssa.Phi, ok bool) {
 	off = 0
 	v := idx
@@ -403,6 +535,11 @@ func (lc *lenChecker) checkIndices(r *Report, fn *ssa.Function) int {
 			if c, isC := constInt(idx); isC && c >= 0 && c < at.Len() {
 				return // constant index into a fixed-size array: checked by the compiler
 			}
+			if hi, okB := indexUpperBound(idx, b); okB && hi < at.Len() {
+				n++
+				r.check("L1", fmt.Sprintf("%s|%s#%d", shortFn(fn), kind, n), pos, true, fmt.Sprintf("index into a %d-element array is structurally bounded by %d", at.Len(), hi))
+				return
+			}
 		}
 		n++
 		key := fmt.Sprintf("%s|%s#%d", shortFn(fn), kind, n)
@@ -420,6 +557,22 @@ func (lc *lenChecker) checkIndices(r *Report, fn *ssa.Function) int {
 			if ms, isMS := x.(*ssa.MakeSlice); isMS {
 				if y, isLen := lenCallOf(ms.Len); isLen {
 					stride, off, _, ok = inductionOver(idx, y, b)
+				}
+			}
+		}
+		if !ok {
+			// an index with a structural constant bound against an established minimum length
+			if hi, okB := indexUpperBound(idx, b); okB {
+				if m := lc.minLen(x, b, 0); m > hi {
+					r.check("L1", key, pos, true, fmt.Sprintf("index bounded by %d, length at least %d", hi, m))
+					return
+				}
+			}
+			// for i := 0; i < n; i++ over a slice made with length n
+			if bound, _, okB := boundedInduction(idx, b); okB {
+				if ms, isMS := x.(*ssa.MakeSlice); isMS && ms.Len == bound {
+					r.check("L1", key, pos, true, "index is the counter of a loop bounded by the length the slice was made with")
+					return
 				}
 			}
 		}
